@@ -21,10 +21,7 @@ pub fn apply_real<G: Cfg>(v: &mut G::V, op: &Op, cols: &[Key], tr: &mut Trace) {
         Op::Collect(cs) => *v = G::collect(&keys_of(cs, cols)),
         Op::WithCapacity(k) => *v = G::with_capacity(*k as usize),
         Op::Drain(r, sc) => G::drain(v, *r, *sc, tr),
-        Op::Get(i) => {
-            let r = G::get_i(v, *i);
-            tr.push(Tok::Ret(r))
-        }
+        Op::Get(i) => G::get_i(v, *i, tr),
         Op::GetR(r) => G::get_r(v, *r, tr),
         Op::GetMut(i, c) => {
             let r = G::get_mut_i(v, *i, &cols[*c as usize % q]);
@@ -50,18 +47,23 @@ pub fn apply_model<G: Cfg>(m: &mut Vec<G::C>, op: &Op, cols: &[Key], tr: &mut Tr
         Op::Collect(cs) => *m = keys_of(cs, cols).iter().map(G::mkc).collect(),
         Op::WithCapacity(k) => *m = Vec::with_capacity(*k as usize),
         Op::Drain(r, sc) => crate::with_range!(*r, rr => run_script(m.drain(rr), *sc, tr, |c, _| G::keyc(&c))),
+        // the real side reads through five backings (Vec, &[T], &mut [T], [T;N], Box<[T]>)
         Op::Get(i) => {
             let r = m.get(*i).map(G::keyc);
-            tr.push(Tok::Ret(r))
+            for _ in 0..5 {
+                tr.push(Tok::Ret(r))
+            }
         }
         Op::GetR(r) => {
             let got: Option<&[G::C]> = crate::with_range!(*r, rr => m.get(rr));
-            match got {
-                None => tr.push(Tok::Slice(None)),
-                Some(s) => {
-                    tr.push(Tok::Slice(Some(vec![s.len(); nc])));
-                    for c in s {
-                        tr.push(Tok::Item(Some(G::keyc(c))));
+            for _ in 0..5 {
+                match got {
+                    None => tr.push(Tok::Slice(None)),
+                    Some(s) => {
+                        tr.push(Tok::Slice(Some(vec![s.len(); nc])));
+                        for c in s {
+                            tr.push(Tok::Item(Some(G::keyc(c))));
+                        }
                     }
                 }
             }
